@@ -186,7 +186,11 @@ Definition call_body (s : wstate) (c : call) : res (bytes * wv) :=
   | WritePreamble (WStr t) encoding indent line_endings _ =>
       prepare_content s (CText t) (indent_or_default indent) line_endings encoding true
   | WriteMeta (WDict j) encoding _ =>
-      do dumped <- json_dump j; prepare_content s (CText (ascii_text dumped)) WNone WNone encoding true
+      (* write_meta hands the JSON on as text when an encoding is in force (the argument, else the innermost open
+         container's), as ASCII bytes when none is (`content.encode('ascii')`, the fix of write_meta) *)
+      do dumped <- json_dump j;
+      let has_enc := if wv_truthy encoding then true else wv_truthy (hd WNone (w_stack s)) in
+      prepare_content s (if has_enc then CText (ascii_text dumped) else CBytes dumped) WNone WNone encoding true
   | WriteDiff (WBytes b) _ encoding line_endings => prepare_content s (CBytes b) WNone line_endings encoding false
   | _ => Err EType
   end.
